@@ -14,6 +14,13 @@ ASSUMPTIONS = [
     "termination is decided by a state budget 8*|LR1(g)|+64 (hook PARGLARE_VERIF_MAX_STATES) and a wall-clock limit, "
     "not by observing divergence",
     "failures are attributed to a known finding only when the frozen baseline implementation fails identically",
+    "theorems C05_first_*/C05_follow_*/C05_closure_*/C05_automaton_structure/C05_lalr_fixpoint/C05_model_table_complete/"
+    "C05_model_table_accepts are about the Gallina model of create_table (Model/First.v, Closure.v, Automaton.v, TableBuild.v); "
+    "that the impl builds the model's table (state numbering, items, follow sets, ACTION cells in order, GOTOs, finish flags, "
+    "FIRST, FOLLOW, conflicts, outcome kinds incl. GrammarError / budget / crashes) is established by the differential run "
+    "table_build_correspondence on generated grammars, not by proof",
+    "C05_model_table_complete covers the class plain_ok (no priorities, associativities, nops/nopse, prefer_shifts*; EMPTY only at "
+    "the end of right-hand sides) for SLR and LALR; with conflict resolution that removes actions completeness is false by design",
 ]
 
 CLASSICS = [
@@ -89,6 +96,7 @@ def _worker(job):
         t["restored"] = [gi2.sym(s) for s in list.__iter__(g2.productions[0].rhs)][:1] == \
             [[1, impl.model_grammar(gi2)[0][1][0][1]]]
         t["table"] = impl.dump_table(tab, gi2)
+        t["ids_ok"] = impl.state_ids_ok(tab)
         ann, ftab, ntab = impl.dump_annotation(tab, gi2, slr=(kind == LR_0), start_nt=start_nt)
         t["ann"], t["first"], t["nullable"] = ann, ftab, ntab
         t["n_states"] = len(tab.states)
@@ -193,6 +201,7 @@ def run(ctx):
           "problem_kinds": {}, "not_restored": 0, "baseline_same": 0, "baseline_differs": 0}
     mcases, meta = [], []
     failing = []
+    violating_texts = set()
     distinct = set()
     samples = []
     for r in results:
@@ -217,6 +226,11 @@ def run(ctx):
                     st["not_restored"] += 1
                     ctx.violation("create_table left the augmented production swapped",
                                   {"grammar": r["gtext"], "kind": t["kind"]}, key="restore")
+                if not t.get("ids_ok", True):
+                    st["bad_state_ids"] = st.get("bad_state_ids", 0) + 1
+                    ctx.violation("states of the table do not carry distinct positional state ids (GLR keys "
+                                  "its graph-structured stack and the persisted table by state_id)",
+                                  {"grammar": r["gtext"], "kind": t["kind"]}, key="state-ids")
                 mcases.append((3, [r["grammar"], t["table"], start]))
                 meta.append(("struct", r, t))
                 mcases.append((8, [r["grammar"], t["table"], t["ann"], t["first"], t["nullable"], r["stop"]]))
@@ -252,6 +266,25 @@ def run(ctx):
                     hit[0][2].extend(kinds)
                 else:
                     failing.append((r, t, kinds))
+    # items_sound (hypothesis of C10_viable_prefix): the item sets of every state are justified from
+    # its kernel, shift/goto targets have items, S' has one production
+    icases, imeta = [], []
+    for r in results:
+        if r["gerr"]:
+            continue
+        for t in r["tabs"]:
+            if t["outcome"] == "ok":
+                icases.append((14, [r["grammar"], t["table"]]))
+                imeta.append((r, t))
+    st["validated_items_sound"] = 0
+    for (r, t), o in zip(imeta, common.model_run(icases)):
+        st["validated_items_sound"] += 1
+        allok, closure, ne0, productive, uniq = o
+        if closure != 1 or ne0 != 1 or uniq != 1:
+            ctx.violation("items_sound fails on the impl's table (closure/targets %d, state 0 items %d, single S' "
+                          "production %d): item sets are not justified from their kernels" % (closure, ne0, uniq),
+                          {"grammar": r["gtext"], "table_kind": t["kind"], "start_rule": r["start_rule"]},
+                          no_input=True, key="items_sound")
     # known finding or violation: does the frozen baseline implementation fail identically?
     if failing:
         bjobs = []
@@ -303,6 +336,15 @@ def run(ctx):
                 st["baseline_differs"] += 1
                 what = "table construction: " + ", ".join(sorted(set(kinds)))
                 ctx.violation(what, rep, key="+".join(sorted(set(kinds))))
+                violating_texts.add(r["gtext"])
+    # ==== table_build_correspondence =====================================================
+    # The Gallina model of create_table itself (Model/First.v, Closure.v, Automaton.v,
+    # TableBuild.v) is run on generated grammars and compared with the impl's tables, item sets,
+    # follow sets, FIRST/FOLLOW, conflicts (harness/lib/tabcorr.py).  A disagreement is a
+    # violation of the correspondence unless the grammar already shows a property violation above.
+    from lib import tabcorr
+    tab_cov = tabcorr.run(ctx, skip_texts=violating_texts)
+    # ==== end of table_build_correspondence ==============================================
     return {
         "evaluations": st["tables"],
         "distinct_nontrivial": len(distinct),
@@ -312,7 +354,9 @@ def run(ctx):
         "samples": samples,
         "traces_validated_against_impl": st["validated_complete"],
         "distribution": st,
-        "crosscheck_vm_compute_cases": nx,
+        "table_build_correspondence": tab_cov,
+        "model_tables_compared_with_impl": tab_cov["compared"],
+        "crosscheck_vm_compute_cases": nx + tab_cov["crosscheck_vm_compute_cases"],
         "exhaustive": False,
     }
 
